@@ -188,6 +188,27 @@ fn exec_sched_inner(it: &mut Interp<Reg4>, w: usize, args: &[String]) -> Option<
                 }
             }
         }
+        if k < total {
+            // C12: a phase is "what is left of stage k" plus tasks of stage k+1 started early.  A phase
+            // whose earliest stage is k therefore holds every task of stage k that has not run yet: a
+            // stage mate that runs in a LATER phase was held back although nothing it conflicts with
+            // was running (the schedule was serialised).
+            let stages = parse_stages(&out.stages);
+            let stage_of = |t: u64| stages.iter().position(|g| g.iter().any(|x| *x as u64 == t));
+            let phases = phases_of(&log);
+            for (pi, p) in phases.iter().enumerate() {
+                if let Some(ks) = p.iter().filter_map(|t| stage_of(*t)).min() {
+                    for later in phases.iter().skip(pi + 1) {
+                        for u in later.iter() {
+                            if stage_of(*u) == Some(ks) {
+                                let a = p.iter().find(|t| stage_of(**t) == Some(ks)).unwrap();
+                                problems.push(format!("{}:serialised tasks {} and {} of stage {} run in separate phases ({}) although none of an earlier stage runs with the first", label, a, u, ks, fmt_groups(&phases)));
+                            }
+                        }
+                    }
+                }
+            }
+        }
         if k == 0 {
             stages_s = fmt_groups(&parse_stages(&out.stages));
             phases_s = fmt_groups(&phases_of(&log));
